@@ -106,6 +106,9 @@ pub struct RunLoop {
     pub over: bool,
     /// iterations after which the clock blocks the thread until it is told to stop
     pub budget: u64,
+    /// attach a simulation controller whose coupling source cannot be read: `apply_post_cycle`
+    /// fails after every successful cycle
+    pub sim_fails: bool,
 }
 
 /// The global variables of every generated configuration: (name, IEC type, AT address or "").
@@ -237,6 +240,7 @@ pub fn gen_runner_case(rng: &mut Rng) -> Case {
         wd_enabled: rng.chance(1, 2),
         over: rng.chance(1, 2),
         budget: 4 + rng.below(6),
+        sim_fails: rng.chance(1, 3),
     });
     case
 }
@@ -507,7 +511,7 @@ pub fn corpus() -> Vec<Case> {
             OpSpec::Wd(WatchdogAction::Halt),
             OpSpec::Safe(vec![(addr("%QB0"), Value::Byte(0)), (addr("%QW2"), Value::Word(0xFFFF))]),
         ],
-        runloop: Some(RunLoop { interval_ms: 10, wd_enabled: true, over: true, budget: 5 }),
+        runloop: Some(RunLoop { interval_ms: 10, wd_enabled: true, over: true, budget: 5, sim_fails: false }),
     });
     // 5: fault policy restart: the program faults at its 2nd activation, the thread restarts warm
     //    and keeps cycling (never Faulted); 6: same program under safe_halt: the thread ends
@@ -521,10 +525,46 @@ pub fn corpus() -> Vec<Case> {
             resize: Some((2, 17, 1)),
             expired_at: vec![],
             ops: vec![OpSpec::Policy(policy), OpSpec::Safe(vec![(addr("%QB0"), Value::Byte(0xA5))])],
-            runloop: Some(RunLoop { interval_ms: 10, wd_enabled: false, over: false, budget: 6 }),
+            runloop: Some(RunLoop { interval_ms: 10, wd_enabled: false, over: false, budget: 6, sim_fails: false }),
+        });
+    }
+    // 7, 8: the witness of the repaired finding C08-runner-post-cycle (the post-cycle simulation step
+    //    fails): under safe_halt the thread must latch SimulationFault and deliver the safe image before it
+    //    ends; under restart it restarts and keeps cycling
+    for policy in [FaultPolicy::SafeHalt, FaultPolicy::Restart] {
+        out.push(Case {
+            tasks: vec![],
+            progs: vec![tick_prog(None, vec![Stmt::Set(2, 0x31)])],
+            drivers: vec![DrvScript::default()],
+            retain: None,
+            pubtrap: false,
+            resize: Some((2, 17, 1)),
+            expired_at: vec![],
+            ops: vec![OpSpec::Policy(policy), OpSpec::Safe(vec![(addr("%QB0"), Value::Byte(0xA5))])],
+            runloop: Some(RunLoop { interval_ms: 10, wd_enabled: false, over: false, budget: 4, sim_fails: true }),
         });
     }
     out
+}
+
+fn failing_simulation() -> trust_runtime::simulation::SimulationController {
+    use trust_runtime::simulation::{SignalCouplingRule, SimulationConfig, SimulationController};
+    SimulationController::new(SimulationConfig {
+        enabled: true,
+        seed: 0,
+        time_scale: 1,
+        couplings: vec![SignalCouplingRule {
+            // a hierarchical output address under a path no generated address uses: never written, so
+            // `runtime.io().read(source)` fails in `apply_post_cycle`
+            source: IoAddress { area: IoArea::Output, size: IoSize::Bit, byte: 99, bit: 3, path: vec![99, 7], wildcard: false },
+            target: addr("%IX0.0"),
+            threshold: None,
+            delay: Duration::from_millis(0),
+            on_true: None,
+            on_false: None,
+        }],
+        disturbances: vec![],
+    })
 }
 
 // ------------------------------------------------------------------------------------------
@@ -715,10 +755,14 @@ impl Clock for GateClock {
 struct ScriptStore {
     fails: Vec<usize>,
     calls: Arc<AtomicUsize>,
+    fail_load: bool,
 }
 
 impl RetainStore for ScriptStore {
     fn load(&self) -> Result<RetainSnapshot, RuntimeError> {
+        if self.fail_load {
+            return Err(RuntimeError::RetainStore("scripted load failure".into()));
+        }
         Ok(RetainSnapshot::default())
     }
     fn store(&self, _snapshot: &RetainSnapshot) -> Result<(), RuntimeError> {
@@ -975,7 +1019,7 @@ pub fn run_case(n: u64, case: &Case, out: &mut Out) -> Result<(), String> {
     let store_calls = Arc::new(AtomicUsize::new(0));
     if let Some(fails) = &case.retain {
         h.runtime_mut().set_retain_store(
-            Some(Box::new(ScriptStore { fails: fails.clone(), calls: store_calls.clone() })),
+            Some(Box::new(ScriptStore { fails: fails.clone(), calls: store_calls.clone(), fail_load: false })),
             Some(Duration::from_millis(0)),
         );
     }
@@ -1193,7 +1237,11 @@ pub fn run_case(n: u64, case: &Case, out: &mut Out) -> Result<(), String> {
         runtime.set_watchdog_policy(pol);
         let interval = rl.interval_ms * MS;
         let clock = GateClock::new(interval, rl.budget);
-        let runner = ResourceRunner::new(runtime, clock.clone(), Duration::from_nanos(interval));
+        let mut runner = ResourceRunner::new(runtime, clock.clone(), Duration::from_nanos(interval));
+        if rl.sim_fails {
+            runner = runner.with_simulation(failing_simulation());
+            out.count("runloop_with_failing_post_cycle");
+        }
         let mut handle = runner.spawn("c08").map_err(|e| format!("spawn: {e}"))?;
         let started = std::time::Instant::now();
         let mut timed_out = false;
@@ -1220,7 +1268,13 @@ pub fn run_case(n: u64, case: &Case, out: &mut Out) -> Result<(), String> {
                 drain_events(&control, &mut sh);
                 std::mem::take(&mut sh.log)
             };
-            out.line(format!("runloop {interval} {} {} {}", u8::from(rl.wd_enabled), u8::from(rl.over), clock.calls()));
+            out.line(format!(
+                "runloop {interval} {} {} {} {}",
+                u8::from(rl.wd_enabled),
+                u8::from(rl.over),
+                clock.calls(),
+                u8::from(rl.sim_fails)
+            ));
             out.line(format!(
                 "impl state={state:?} err={} ev={}",
                 err.as_ref().map(canon_err).unwrap_or_else(|| "-".into()),
@@ -1238,11 +1292,15 @@ pub fn run_case(n: u64, case: &Case, out: &mut Out) -> Result<(), String> {
     Ok(())
 }
 
-/// Developer probe (not part of the check): `vharness c08 --probe postcycle`.
-/// A ResourceRunner with a simulation coupling whose source cannot be read: `apply_post_cycle`
-/// fails, the thread ends in `Faulted` — does it go through the fault decision (safe state)?
-fn probe_post_cycle() -> i32 {
-    use trust_runtime::simulation::{SignalCouplingRule, SimulationConfig, SimulationController};
+/// Witness replays on the real `ResourceRunner` (`vharness c08 --probe <postcycle|restartload>`),
+/// run by checks/c08.py on every check.  Common setup: a program writing %QB0 := 16#31, one logging
+/// driver, fault policy safe_halt, safe state %QB0 := 16#A5 — so a delivered safe image starts with
+/// `a5` and is followed by an `F:` event.
+/// * postcycle (regression of the repaired finding C08-runner-post-cycle): the post-cycle simulation
+///   step fails after the first cycle.
+/// * restartload (open finding C08-runner-restart-failure): after two good cycles an external warm
+///   restart is requested and the retain store cannot be loaded.
+fn probe(kind: &str) -> i32 {
     let case = Case {
         tasks: vec![],
         progs: vec![Prog { task: None, body: vec![Stmt::Set(2, 0x31)] }],
@@ -1264,25 +1322,38 @@ fn probe_post_cycle() -> i32 {
     h.runtime_mut().io_mut().resize(2, 17, 1);
     h.runtime_mut().set_fault_policy(FaultPolicy::SafeHalt);
     h.runtime_mut().set_io_safe_state(IoSafeState { outputs: vec![(addr("%QB0"), Value::Byte(0xA5))] });
-    let sim = SimulationController::new(SimulationConfig {
-        enabled: true,
-        seed: 0,
-        time_scale: 1,
-        couplings: vec![SignalCouplingRule {
-            source: addr("%QX1.2.3"), // hierarchical output nobody has written: read fails
-            target: addr("%IX0.0"),
-            threshold: None,
-            delay: Duration::from_millis(0),
-            on_true: None,
-            on_false: None,
-        }],
-        disturbances: vec![],
-    });
-    let clock = GateClock::new(10 * MS, 5);
-    let runner = ResourceRunner::new(h.into_runtime(), clock.clone(), Duration::from_millis(10)).with_simulation(sim);
+    let signal: Arc<Mutex<Option<RestartMode>>> = Arc::new(Mutex::new(None));
+    let budget = if kind == "restartload" { 2 } else { 5 };
+    let clock = GateClock::new(10 * MS, budget);
+    if kind == "restartload" {
+        h.runtime_mut().set_retain_store(
+            Some(Box::new(ScriptStore { fails: vec![], calls: Arc::new(AtomicUsize::new(0)), fail_load: true })),
+            Some(Duration::from_millis(0)),
+        );
+    }
+    let mut runner = ResourceRunner::new(h.into_runtime(), clock.clone(), Duration::from_millis(10));
+    runner = match kind {
+        "postcycle" => runner.with_simulation(failing_simulation()),
+        "restartload" => runner.with_restart_signal(signal.clone()),
+        _ => {
+            eprintln!("unknown probe {kind}");
+            return 2;
+        }
+    };
     let mut handle = runner.spawn("probe").expect("spawn");
     let started = std::time::Instant::now();
-    while handle.state() != ResourceState::Faulted && !clock.blocked() && started.elapsed() < std::time::Duration::from_secs(10) {
+    let mut requested = false;
+    while handle.state() != ResourceState::Faulted && started.elapsed() < std::time::Duration::from_secs(20) {
+        if clock.blocked() {
+            if kind == "restartload" && !requested {
+                // two cycles have run; request the restart and let the thread go on
+                *signal.lock().unwrap() = Some(RestartMode::Warm);
+                requested = true;
+                clock.wake();
+            } else if kind != "restartload" {
+                break;
+            }
+        }
         std::thread::sleep(std::time::Duration::from_millis(1));
     }
     handle.stop();
@@ -1290,20 +1361,18 @@ fn probe_post_cycle() -> i32 {
     let mut sh = shared.lock().unwrap();
     drain_events(&control, &mut sh);
     println!(
-        "probe postcycle state={:?} err={} iterations={} ev={}",
+        "probe {kind} state={:?} err={} iterations={} ev={}",
         handle.state(),
         handle.last_error().as_ref().map(canon_err).unwrap_or_else(|| "-".into()),
         clock.calls(),
         if sh.log.is_empty() { "-".to_string() } else { sh.log.join(",") }
     );
-    // policy safe_halt, safe state %QB0 := 0xA5: a delivered safe image starts with a5 and is
-    // followed by an F: event
     0
 }
 
 pub fn run(args: &Args) -> i32 {
-    if args.extra.get("probe").map(String::as_str) == Some("postcycle") {
-        return probe_post_cycle();
+    if let Some(kind) = args.extra.get("probe") {
+        return probe(kind);
     }
     let mut out = Out::new();
     let corpus = corpus();
